@@ -220,6 +220,8 @@ for q in (b'"', b"'"):
 rnd = random.Random(@SEED@)
 pieces = [b'x = 1', b'print("a\\n\\"b\\065\\x41\\0001")', b"s = 'it\\'s'", b't = [[long\nstring]]', b'u = [==[a]]b]==]', b'-- comment', b'// c2',
           b'--[[ block\ncomment ]]', b'if (a) b=1 else c=2', b'?"x"', b'::lbl:: goto lbl', b'y = 0x1f.8 + 0b101 - 1e+5 * .5', b'z = "\\*\\#\\-\\|\\+\\^"',
+          b't = [[\nstarts with a line end]]', b't = [[\n\ntwo]]', b'v = [=[\r\ncrlf first]=]', b'--[[\nblock comment that starts with a line end\n]]',
+          b'--[==[\r\n x ]==]', b't = [[]]', b't = [[\n]]', b'f[[\nx]]',
           b'w = "a\\\nb"', b'\x80\x81 = "\xff\x00"'.replace(b'\x00', b'\\0'), b'a<<>b>>>c~=d!=e..=f', b'  \t  ', b'']
 seps = [b'\n', b'\r\n', b'\n\n', b' ']
 bad_echo, n_echo = [], 0
